@@ -1058,6 +1058,22 @@ class SetAlg:
                 return ("mut", self.canon(base), effs2)
             if len(effs) != len(t[2]) or base is not t[1]:
                 return ("mut", self.canon(base), tuple(self.canon(_read_through(e_)) if isinstance(e_, tuple) else e_ for e_ in effs))
+        if h == "fstr" and len(t) == 2 and isinstance(t[1], tuple):
+            # f"{'u_'}{i}" is f"u_{i}": constant pieces are text, adjacent text is one piece (a value substituted late must read like one folded early)
+            parts_: list = []
+            for q_ in t[1]:
+                if is_term(q_) and q_[0] == "fmt" and len(q_) == 3 and is_term(q_[1]) and q_[1][0] == "const" and isinstance(q_[1][1], str) and q_[2] == ("const", -1):
+                    q_ = q_[1]
+                elif is_term(q_) and q_[0] == "fmt" and len(q_) == 3 and is_term(q_[1]) and q_[1][0] == "fstr" and q_[2] == ("const", -1):
+                    for r_ in q_[1][1]:
+                        parts_.append(r_)
+                    continue
+                if parts_ and is_term(q_) and q_[0] == "const" and isinstance(q_[1], str) and parts_[-1][0] == "const" and isinstance(parts_[-1][1], str):
+                    parts_[-1] = ("const", parts_[-1][1] + q_[1])
+                else:
+                    parts_.append(q_)
+            if tuple(parts_) != t[1]:
+                return self.canon_opaque(("fstr", tuple(parts_)))
         if h == "op" and len(t) == 4 and t[1] in ("+", "*") and is_term(t[2]) and is_term(t[3]) and t[2][0] == "const" and isinstance(t[2][1], (int, float)) \
                 and not isinstance(t[2][1], bool) and t[3][0] != "const":
             return self.canon_opaque(("op", t[1], t[3], t[2]))  # 1 + i is i + 1 (numbers)
